@@ -86,6 +86,19 @@ PROPS = {
         'level_note': 'Trusted: rustc front end + MIR, the extractor, rules/tables/c06_operand_only.json.',
         'technique': 'dominator-based pairing rule + emitted-opcode/sibling agreement over resolved MIR (rustc_private driver)',
     },
+    'C09': {
+        'module': 'c09',
+        'explanation': 'Pairing rules over MIR in both build worlds (dev: Ref-returning active_fiber; rel: raw-pointer active_fiber): every '
+                       'write of Vm.fiber is paired with a write of Vm.unsafe_fiber derived from the same fiber with no active-fiber use in '
+                       'between; each frame/fiber switch saves the running ip first; each switch writes the result slot of the resumed side.',
+        'assumptions': COMMON_ASSUME,
+        'not_decided': ['interleavings of several fibers', 'per-fiber isolation of locals/handlers at run time',
+                        'that error cases leave every fiber untouched'],
+        'level_text': 'Decides F1 (both worlds), F2, F3 for the four fiber-switching functions; interleaving behaviour is not decided.',
+        'design_ref': 'DESIGN.md section 1, C09',
+        'level_note': 'Trusted: rustc front end + MIR (two cargo profiles), the extractor.',
+        'technique': 'write-pairing / must-pass-through rules over resolved MIR in two cfg worlds (rustc_private driver)',
+    },
 }
 
 NOT_APPLICABLE = {
